@@ -60,3 +60,20 @@ def f2_pct_surrogate(rec, args):
         return impl.qc._Quoter(**kw)(stripped) == impl.qp._Quoter(**kw)(word)
     except Exception:
         return False
+
+
+_BAD_UTF8_ESC = re.compile(r"%[89A-Fa-f][0-9A-Fa-f]")
+
+
+@predicate
+def f12_query_replacement_char(rec, args):
+    """The observed query pairs contain U+FFFD although the supplied text has none, and the supplied/raw text contains a
+    non-ASCII escape (the only way parse_qsl(errors='replace') can produce U+FFFD)."""
+    blob = json.dumps([rec.get("observed"), rec.get("msg")], ensure_ascii=True)
+    text = json.dumps(rec.get("args"), ensure_ascii=True)
+    if "\\ufffd" in text.lower() or "%ef%bf%bd" in text.lower():
+        return False
+    if not _BAD_UTF8_ESC.search(text):
+        return False
+    b = blob.lower()
+    return "\\ufffd" in b or "xef\\\\xbf\\\\xbd" in b or "%ef%bf%bd" in b
